@@ -17,7 +17,7 @@ CONSTANTS MaxOps,       \* operations per client
           ExtraHandles, \* function: further initial handles -> [kind, a, owner]
           Names         \* sequence of fresh handle names
 
-NoCfg == [cap |-> Unb, strat |-> "restart", stream |-> FALSE, tmo |-> 0, failto |-> FALSE, owning |-> FALSE,
+NoCfg == [cap |-> Unb, strat |-> "restart", stream |-> FALSE, tmo |-> -1, failto |-> FALSE, owning |-> FALSE,
           sscr |-> <<>>, pscr |-> <<>>, fscr |-> <<>>, ty |-> "0", items0 |-> 0, ended0 |-> FALSE, iscr |-> <<>>]
 Op(k, x, nh, s, d, to) == [op |-> k, h |-> x, nh |-> nh, a |-> "none", scr |-> s, cfg |-> NoCfg, d |-> d, to |-> to, ty |-> "0", nh2 |-> "none", h2 |-> "none"]
 RegOp(k, x, T, nh, nh2) == [op |-> k, h |-> x, nh |-> nh, a |-> "none", scr |-> <<>>, cfg |-> NoCfg, d |-> 0, to |-> "none", ty |-> T, nh2 |-> nh2, h2 |-> "none"]
@@ -98,6 +98,7 @@ A_PingHandled == \E a \in Actor : PingHandled(a) /\ Sch
 A_HandleBegin == \E a \in Actor : HandleBegin(a) /\ Sch
 A_HandleEnd   == \E a \in Actor : HandleEnd(a) /\ Sch
 A_TimeoutFire == \E a \in Actor : TimeoutFire(a) /\ Sch
+A_TimeoutBeforeStart == \E a \in Actor : TimeoutBeforeStart(a) /\ Sch
 A_RestartTaken == \E a \in Actor : RestartTaken(a) /\ Sch
 A_RestartStopped == \E a \in Actor : RestartStopped(a) /\ Sch
 A_RestartRefresh == \E a \in Actor : RestartRefresh(a) /\ Sch
@@ -127,7 +128,7 @@ MCNext ==
   \/ A_RegIssue \/ A_TryFromRegistry \/ A_RegBody \/ A_RegPingReturn
   \/ A_JoinBegin \/ A_Flushed \/ A_RespReturn \/ A_AwaitReturn \/ A_JoinReturn
   \/ A_StartedBegin \/ A_ScriptStep \/ A_StartedEnd \/ A_Dequeue \/ A_MailboxClosed \/ A_StopTaken
-  \/ A_PingHandled \/ A_HandleBegin \/ A_HandleEnd \/ A_TimeoutFire \/ A_RestartTaken \/ A_RestartStopped
+  \/ A_PingHandled \/ A_HandleBegin \/ A_HandleEnd \/ A_TimeoutFire \/ A_TimeoutBeforeStart \/ A_RestartTaken \/ A_RestartStopped
   \/ A_RestartRefresh \/ A_RestartStarted \/ A_StoppedEnd \/ A_Notify \/ A_Exit \/ A_Advance \/ A_Cancel
   \/ A_StreamItem \/ A_StreamDone \/ A_FinishedEnd \/ A_StreamFeed
   \/ A_TimerStart \/ A_TimerFire \/ A_TimerFlushed \/ A_TimerEnd
@@ -157,7 +158,7 @@ Term_ExactlyK == (IdleClock /\ Quiescent) => \A i \in DOMAIN tmr :
 (* Libraries of constants for the .cfg files *)
 Y == Eff("yield", 0, "")
 Cfg(cap, strat, tmo, failto, owning, sscr, pscr) ==
-  [cap |-> cap, strat |-> strat, stream |-> FALSE, tmo |-> tmo, failto |-> failto, owning |-> owning,
+  [cap |-> cap, strat |-> strat, stream |-> FALSE, tmo |-> IF tmo = 0 THEN -1 ELSE tmo, failto |-> failto, owning |-> owning,     \* (0 here = none)
    sscr |-> sscr, pscr |-> pscr, fscr |-> <<>>, ty |-> "0", items0 |-> 0, ended0 |-> FALSE, iscr |-> <<>>]
 ScriptsCore == {<<>>, <<Y>>}
 ScriptsPlain == {<<>>}
@@ -171,6 +172,7 @@ CfgsFail == {Cfg(1, "restart", 0, FALSE, own, <<ss>>, ps) : own \in {FALSE, TRUE
 CfgsFailOwn == {Cfg(1, "restart", 0, FALSE, TRUE, <<ss>>, ps) : ss \in {<<>>, <<Y, Er>>, <<P>>}, ps \in {<<Y>>, <<P>>}}
 CfgsTmo == {Cfg(cap, "restart", 2, f, FALSE, <<<<>>>>, <<>>) : cap \in {Unb, 1}, f \in {FALSE, TRUE}}
 CfgsTmoU == {Cfg(Unb, "restart", 2, f, FALSE, <<<<>>>>, <<>>) : f \in {FALSE, TRUE}}
+CfgsTmo0 == {[Cfg(Unb, "restart", 1, f, FALSE, <<<<>>>>, <<>>) EXCEPT !.tmo = 0] : f \in {FALSE, TRUE}}     \* a configured timeout of zero
 CfgsNoTmo == {Cfg(Unb, "restart", 0, FALSE, FALSE, <<<<>>>>, <<>>)}
 CfgsStrat2 == {Cfg(1, st, 0, FALSE, FALSE, ss, <<Y>>) : st \in {"restart", "recreate", "none"}, ss \in {<<<<>>>>, <<<<>>, <<Er>>>>}}
 ScriptsFail == {<<>>, <<Y>>, <<P>>}
